@@ -565,7 +565,7 @@ PROPS = {"C01": c01, "C02": c02, "C08": c08, "C06": c06, "C15": c15, "C18": c18,
 FIXTURE_RULES = {
     "C02": ["R22", "R18", "R4", "R24", "R25"],
     "C08": ["R8", "R1"],
-    "C01": ["R19", "R8", "R9", "R6", "R25", "R22"],
+    "C01": ["R19", "R8", "R9", "R6", "R25", "R22", "R26"],
     "C03": ["R4", "R1"], "C04": ["R3", "R14", "R1", "R21"], "C05": ["R6", "R1"], "C06": ["R9", "R1", "R8", "R19"], "C07": ["R9", "R8", "R6", "R19"],
     "C09": ["R9", "R1", "R19", "R6"], "C10": ["R10", "R9", "R1", "R6"], "C11": ["R8", "R9"], "C12": ["R6", "R8"], "C13": ["R9"],
     "C14": ["R8", "R6"], "C15": ["R18", "R5", "R22"], "C16": ["R5", "R18"], "C17": ["R6"], "C18": ["R9", "R8", "R6", "R19"], "C20": ["R1", "R8", "R9"],
